@@ -17,6 +17,9 @@ from pathlib import Path
 
 import core
 
+for _v in ("OPENBLAS_NUM_THREADS", "OMP_NUM_THREADS", "MKL_NUM_THREADS"):   # tiny matrices: BLAS threads only cost wall time
+    os.environ.setdefault(_v, "1")
+
 sys.path.insert(0, str(Path(__file__).resolve().parent.parent / "translate"))
 import writers as writers_T  # noqa: E402
 
@@ -60,13 +63,18 @@ class Env:
             with open(name, "w") as f:
                 for i in range(n):
                     f.write(f"{i * 0.1} {i * 0.1 + off} {float(np.sin(i * 0.2))} {off} 0 0 0 1\n")
+        for name, off, m in (("d.txt", 0.0, 60), ("e.txt", 0.02, 60), ("s.txt", 0.0, 6), ("u.txt", 0.05, 6)):
+            with open(name, "w") as f:
+                for i in range(m):
+                    f.write(f"{i * 0.1} {i * 0.1 + off} {float(np.cos(i * 0.3))} {off} 0 0 0 1\n")
         from evo import main_ape, main_ape_parser
         self.quiet(lambda: main_ape.run(main_ape_parser.parser().parse_args(["tum", "a.txt", "b.txt", "--save_results", "r1.zip"])))
         self.quiet(lambda: main_ape.run(main_ape_parser.parser().parse_args(["tum", "a.txt", "c.txt", "--save_results", "r2.zip"])))
         # a result with a *different title* (rotation angle instead of translation part): evo_res then asks "Go on anyway?"
         self.quiet(lambda: main_ape.run(main_ape_parser.parser().parse_args(
             ["tum", "a.txt", "c.txt", "-r", "angle_deg", "--save_results", "r3.zip"])))
-        self.inputs = {p: Path(p).read_bytes() for p in ("a.txt", "b.txt", "c.txt", "r1.zip", "r2.zip", "r3.zip")}
+        self.inputs = {p: Path(p).read_bytes() for p in ("a.txt", "b.txt", "c.txt", "d.txt", "e.txt", "s.txt", "u.txt",
+                                                          "r1.zip", "r2.zip", "r3.zip")}
 
     def quiet(self, fn, answers=(), other_answers=()):
         """run fn with stdout/stderr captured and input() scripted by the *text* of the prompt: overwrite questions
@@ -161,6 +169,18 @@ def objects():
         res_alt = main_ape.ape(traj, traj2, pose_relation=metrics.PoseRelation.rotation_angle_deg)
         df_alt = pandas_bridge.trajectories_stats_to_df({"b": traj2})
         _OBJ.update(traj=traj, res=res, df=df, plots=plots, traj_alt=traj2, res_alt=res_alt, df_alt=df_alt)
+        for tag, f1, f2, npts in (("long", "d.txt", "e.txt", 400), ("short", "s.txt", "u.txt", 2)):
+            t1, t2 = file_interface.read_tum_trajectory_file(f1), file_interface.read_tum_trajectory_file(f2)
+
+            def mk(npts=npts):
+                pc = plot.PlotCollection("t")
+                for nm in ("one", "two", "three"):
+                    fig = plt.figure(figsize=(1, 1))
+                    fig.gca().plot(list(range(npts)), [((7 * k) % 5) for k in range(npts)])
+                    pc.add_figure(nm, fig)
+                return pc
+            _OBJ[tag] = dict(traj=t1, res=main_ape.ape(t1, t2, pose_relation=metrics.PoseRelation.full_transformation),
+                             df=pandas_bridge.trajectories_stats_to_df({"p": t1, "q": t2} if tag == "long" else {"p": t1}), plots=mk)
     return _OBJ
 
 
@@ -235,6 +255,29 @@ def run_cli(e, cid, no_warnings, answers, other_answers=("y",)):
     return prompts, exc, figs
 
 
+SUBST = {"long": {"a.txt": "d.txt", "b.txt": "e.txt", "c.txt": "e.txt", "r2.zip": "r3.zip", "r3.zip": "r2.zip"},
+         "short": {"a.txt": "s.txt", "b.txt": "u.txt", "c.txt": "u.txt", "r2.zip": "r3.zip", "r3.zip": "r2.zip"}}
+
+
+def prerun(e, cid, variant, targets):
+    """pre-existing targets = the earlier output of the same command from other (longer / shorter) data"""
+    cmd, argv = CLI[cid][0], [SUBST[variant].get(a, a) for a in CLI[cid][1]]
+    had = set(e.snapshot())
+    saved = CLI[cid]
+    CLI[cid] = (cmd, argv) + tuple(saved[2:])
+    try:
+        run_cli(e, cid, True, [])
+    finally:
+        CLI[cid] = saved
+    new = sorted(set(e.snapshot()) - had)
+    for src, dst in zip(new, sorted(targets)):
+        if src != dst:
+            os.replace(src, dst)
+    for t in targets:
+        if not Path(t).exists():
+            Path(t).write_bytes(SENTINEL)
+
+
 def figure_files(e, cid):
     """names of the split-figure files of a --save_plot x.png run, in export order (learned by a dry run)"""
     if cid not in _FIGS:
@@ -255,7 +298,7 @@ def gen_cases(ctx):
             for ex in (0, 1):
                 for cf in (0, 1):
                     for a in ANSWERS:
-                        if w == "export_split":
+                        if w == "export_split" or (not ctx.thorough and w in ("export_pdf", "serialize") and a in ("Y", "yes")):
                             continue
                         yield {"kind": "fn", "writer": w, "pk": pk, "exists": ex, "confirm": cf, "answer": a}
     # L7/L10: the same target under other spellings / awkward names; L1/L2: a second call meets the writer's own output
@@ -272,6 +315,13 @@ def gen_cases(ctx):
             yield {"kind": "fn", "writer": w, "pk": "str", "exists": 1, "confirm": 1, "answer": a, "prewrite": "self"}
     for w in ("write_tum_trajectory_file", "write_kitti_poses_file", "save_res_file"):
         yield {"kind": "fn-handle", "writer": w, "answer": "n"}
+    # pre-existing targets of size 0 and 1, and the same writer's earlier output from longer / shorter data
+    for w in FN_WRITERS:
+        if w == "export_split":
+            continue
+        for pre in ("empty", "one", "long", "short"):
+            for cf, a in ((1, "y"), (1, "n"), (0, "n")):
+                yield {"kind": "fn", "writer": w, "pk": "str", "exists": 1, "confirm": cf, "answer": a, "pre": pre}
     # L9: several outputs in one call, every pattern of existing targets x every y/decline assignment, argv order shuffled
     import itertools
     for cid, (_, _, spec) in COMBOS.items():
@@ -309,12 +359,25 @@ def gen_cases(ctx):
                       ((1, 0, "n"), (1, 0, "y"), (1, 1, "n"), (0, 0, "n"))]
         fast_rest = [c for c in full if not slow(c) and c not in core_cases]
         slow_rest = [c for c in full if slow(c) and c not in core_cases]
-        chosen = core_cases + fast_rest + r.sample(slow_rest, 5)
+        # evo_res builds seaborn figures (~1 s per run): its plot options keep declined + accepted only in the quick tier
+        core_cases = [c for c in core_cases if not (c["option"].startswith("res") and slow(c))
+                      or (c["exists"], c["no_warnings"]) == (1, 0)]
+        chosen = core_cases + fast_rest + r.sample([c for c in slow_rest if not c["option"].startswith("res")], 3)
     for c in chosen:
         yield c
+    for cid in single:
+        slow_opt = "plot" in cid
+        if slow_opt and not ctx.thorough:
+            continue
+        for pre in ("empty", "one", "long", "short"):
+            combos_ = [(0, "y"), (0, "n")] + ([(1, "n")] if CLI[cid][0] != "config" else [])
+            for nw, a in combos_:
+                if pre in ("long", "short") and (CLI[cid][0] == "config" or (a == "n" and nw == 0 and not ctx.thorough)):
+                    continue
+                yield {"kind": "cli", "option": cid, "exists": 1, "no_warnings": nw, "answer": a, "pre": pre}
     # evo_res asked "mismatching titles … go on anyway?" and answered 'n': exits before any write
     for cid in [c for c in CLI if c.startswith("res2:")]:
-        for ex in (0, 1):
+        for ex in ((0, 1) if (ctx.thorough or "plot" not in cid) else (1,)):
             yield {"kind": "cli" if CLI[cid][4] is not None else "cli-multi", "option": cid, "exists": ex, "no_warnings": 0,
                    "answer": "y", "title_answer": "n", "pattern": "all" if ex else "none", "answers": ["y"]}
     for ex in (0, 1):
@@ -326,7 +389,8 @@ def gen_cases(ctx):
         combos = [(p, s, nw) for (p, s) in mp for nw in (0, 1)]
         if not ctx.thorough:
             slow = cid.startswith("res") or cid.startswith("traj")
-            combos = [(p, s, 0) for (p, s) in (mp[:2] if slow else mp[:4])] + [("all", ["n"], 1)] + r.sample(combos, 1 if slow else 2)
+            combos = [(p, s, 0) for (p, s) in (mp[1:2] if cid.startswith("res2") else mp[:2] if slow else mp[:3])] + \
+                ([("all", ["n"], 1)] if not cid.startswith("res2") else []) + ([] if slow else r.sample(combos, 1))
         for p, s, nw in combos:
             yield {"kind": "cli-multi", "option": cid, "pattern": p, "answers": s, "no_warnings": nw}
 
@@ -338,7 +402,9 @@ def targets_of_fn(w):
 
 def call_fn(w, path, cf, alt=False):
     o = dict(objects())
-    if alt:     # other data: the earlier output of the same writer that a second call then meets
+    if alt in ("long", "short"):     # earlier output of the same writer from longer / shorter data
+        o.update(objects()[alt])
+    elif alt:     # other data: the earlier output of the same writer that a second call then meets
         o.update(traj=o["traj_alt"], res=o["res_alt"], df=o["df_alt"], plots=lambda: objects()["plots"](True))
     from evo.tools import file_interface, pandas_bridge
     if w == "write_tum_trajectory_file":
@@ -358,6 +424,63 @@ def call_fn(w, path, cf, alt=False):
 
 def hexs(s):
     return core.hexs(s)
+
+
+_REF = {}     # (scope, target name) -> bytes the same writer produces on a fresh path from the same data
+
+
+def same_content(name, got, ref):
+    """is `got` the writer's output and nothing else? (byte for byte; zip: member for member; pdf: dates masked;
+    pickle: exactly one pickle of the same length, nothing behind it)"""
+    import re
+    import zipfile
+    import pickle
+    if got is None or ref is None:
+        return got is ref, "missing"
+    if name.endswith(".zip"):
+        try:
+            zg, zr = zipfile.ZipFile(io.BytesIO(got)), zipfile.ZipFile(io.BytesIO(ref))
+            ng, nr = [i.filename for i in zg.infolist()], [i.filename for i in zr.infolist()]
+            if ng != nr:
+                return False, f"zip members {ng} != {nr}"
+            bad = [n for n in nr if zg.read(n) != zr.read(n)]
+            if len(got) != len(ref):
+                return False, f"zip file has {len(got)} bytes, a fresh one {len(ref)}"
+            return not bad, f"zip members differ: {bad}"
+        except Exception as e:  # noqa
+            return False, f"not a zip file: {e}"
+    if name.endswith(".pdf"):
+        m = lambda x: re.sub(rb"/CreationDate \([^)]*\)", b"", x)  # noqa
+        return m(got) == m(ref), f"pdf differs from a fresh export ({len(got)} vs {len(ref)} bytes)"
+    if name.endswith(".ser"):
+        try:
+            f = io.BytesIO(got)
+            obj = pickle.load(f)
+            rest = f.read()
+            import matplotlib.pyplot as plt
+            plt.close("all")
+            return (rest == b"" and len(got) == len(ref) and sorted(obj) == sorted(pickle.loads(ref))), \
+                f"pickle: {len(rest)} bytes behind the object, {len(got)} vs {len(ref)} bytes"
+        except Exception as e:  # noqa
+            return False, f"not a pickle: {e}"
+    return got == ref, f"{len(got)} bytes differ from a fresh output ({len(ref)} bytes)"
+
+
+def check_content(ctx, case, scope, targets, before, after):
+    """harvest reference outputs from absent targets; every pre-existing target whose bytes changed (an accepted
+    overwrite) must be exactly what the writer produces on a fresh path"""
+    for t in targets:
+        if t not in before and after.get(t) and (scope, t) not in _REF:
+            _REF[(scope, t)] = after[t]
+    for t in targets:
+        if t in before and after.get(t) is not None and after[t] != before[t] and (scope, t) in _REF:
+            ok, why = same_content(t, after[t], _REF[(scope, t)])
+            if not ok:
+                ctx.fail(case, "accepted-overwrite-is-the-new-output-only",
+                         f"{t}: after an accepted overwrite the file is not what the writer produces on a fresh path: {why}")
+
+
+PRE = {"empty": b"", "one": b"\n"}
 
 
 def judge_single(ctx, case, e, targets, enabled, answers, prompts, exc, before, after, model_line, tolerate_typeerror=False):
@@ -500,6 +623,7 @@ def judge_combo(ctx, case, enabled, prompts, exc, before, after, outs):
     for k, v in before.items():
         if k not in [p[0] for p in per] and after.get(k) != v:
             ctx.fail(case, "other-files-untouched", f"{k} was modified")
+    check_content(ctx, case, "combo:" + case["combo"], [p[0] for p in per], before, after)
     ctx.count("branch", "several-outputs-in-one-call")
     ctx.count("dist", "combo:" + case["combo"])
     ctx.record(case, n_existing > 0)
@@ -558,11 +682,20 @@ def evaluate(ctx, cases):
             if sp == "updir":
                 os.mkdir("sub")
             given = {"dot": "./" + t, "updir": "sub/../" + t, "abs": os.path.join(e.dir, t)}.get(sp, t)
+            scope = "fn:" + case["writer"]
+            if (scope, t) not in _REF:        # what this writer produces on a fresh path from the same data
+                e.quiet(call_fn(case["writer"], "ref__" + t, False), [])
+                if Path("ref__" + t).exists():
+                    _REF[(scope, t)] = Path("ref__" + t).read_bytes()
+                    os.remove("ref__" + t)
             if case["exists"]:
-                if case.get("prewrite") == "self":      # L1/L2: the writer meets its own earlier output
+                pre = case.get("pre") or ("self" if case.get("prewrite") == "self" else "sentinel")
+                if pre == "self":      # L1/L2: the writer meets its own earlier output
                     e.quiet(call_fn(case["writer"], t, False, alt=True), [])
+                elif pre in ("long", "short"):      # … from longer / shorter data
+                    e.quiet(call_fn(case["writer"], t, False, alt=pre), [])
                 else:
-                    Path(t).write_bytes(SENTINEL)
+                    Path(t).write_bytes(PRE.get(pre, SENTINEL))
             before = e.snapshot()
             path = given if case["pk"] == "str" else Path(given)
             prompts, exc = e.quiet(call_fn(case["writer"], path, bool(case["confirm"])), [case["answer"]])
@@ -587,9 +720,19 @@ def evaluate(ctx, cases):
             cmd, _, mfile, writer, targets = CLI[cid]
             if "updir" in cid:
                 os.mkdir("sub")
+            if case["exists"] and any(("cli:" + cid, t) not in _REF for t in targets):
+                run_cli(e, cid, True, [])           # reference: the outputs on fresh paths (only needed in a replay)
+                check_content(ctx, case, "cli:" + cid, targets, {}, e.snapshot())
+                e.reset()
+                if "updir" in cid:
+                    os.mkdir("sub")
             if case["exists"]:
-                for t in targets:
-                    Path(t).write_bytes(SENTINEL)
+                pre = case.get("pre", "sentinel")
+                if pre in ("long", "short"):
+                    prerun(e, cid, pre, targets)
+                else:
+                    for t in targets:
+                        Path(t).write_bytes(PRE.get(pre, SENTINEL))
             before = e.snapshot()
             answers = [case["answer"]] * len(targets)
             prompts, exc, _ = run_cli(e, cid, bool(case["no_warnings"]), answers, [case.get("title_answer", "y")])
@@ -690,6 +833,9 @@ def evaluate(ctx, cases):
             if want_other:
                 ctx.count("branch", "title-question-accepted-then-overwrite-question")
         case = {k: v for k, v in case.items() if k != "other_prompts"}
+        if case["kind"] in ("fn", "fn-multi", "cli", "cli-multi"):
+            scope = ("fn:" + case.get("writer", "export_split")) if case["kind"].startswith("fn") else ("cli:" + case["option"])
+            check_content(ctx, case, scope, targets, before, after)
         if case["kind"] in ("fn", "cli"):
             plot_fn = case["kind"] == "fn" and case["pk"] == "path" and case["writer"] in ("serialize", "export_pdf")
             judge_single(ctx, case, env(), targets, enabled, answers, prompts, exc, before, after, out,
